@@ -48,6 +48,11 @@ def do_run(pid, tier, seed):
     prop = importlib.import_module('verifsim.props.' + pid.lower())
     cfg = prop.TIERS[tier]
     total = int(os.environ.get('VERIF_RUNS', cfg['runs']))
+    rdir = os.path.join(VERIF_DIR, 'replays')
+    if os.path.isdir(rdir):
+        for fn in os.listdir(rdir):
+            if fn.startswith(pid + '-'):
+                os.unlink(os.path.join(rdir, fn))
     P = cfg['classes']
     S = max(1, -(-NPROC // P))
     budget = float(os.environ.get('VERIF_BUDGET_S', cfg['budget_s']))
